@@ -238,6 +238,70 @@ def completeness_probe(w, lay, rng, viol, stats, only=None, flags=()):
                          owner=owner.replace(w.root, "<ROOT>"), cwd=cwd.replace(w.root, "<ROOT>"), stderr=pr.stderr[-300:]))
 
 
+def multi_file_probe(w, lay, layout, rng, viol, stats, flags=()):
+    """One well-formed report naming SEVERAL really edited files of different repositories (plus one of no repository), in any order,
+    sent from a directory that is no repository (workspace mode) or from another repository (cross-repo mode): every file must be
+    recorded in the nearest enclosing repository; scan_logs then checks that nothing is recorded anywhere else.
+    Finding D53 (open): a hook started inside the OUTER repository drops files of a repository nested in it - so a list that names a
+    nested-repository file is never sent from the outer repository."""
+    classes = [c for c in ("abs", "sub", "other-repo", "sibling-prefix-repo", "nested-repo", "outside") if c in lay["files"]]
+    k = rng.choice([2, 3, 3, 4])
+    chosen = rng.sample(classes, min(k, len(classes)))
+    if layout == "nested" and "nested-repo" not in chosen and rng.random() < 0.7:
+        chosen[rng.randrange(len(chosen))] = "nested-repo"
+        chosen = list(dict.fromkeys(chosen))
+    rng.shuffle(chosen)
+    files = [lay["files"][c] for c in chosen]
+    cwds = [w.root, os.path.join(w.root, "plain")]
+    if layout == "multi":
+        cwds += [os.path.join(w.root, "ws"), os.path.join(w.root, "ws", "third")]
+    if lay.get("nested"):
+        cwds.append(lay["nested"])
+    if "nested-repo" not in chosen:
+        cwds.append(lay["main"])
+    cwd = rng.choice(cwds)
+    style = rng.choice(["abs", "abs", "rel"])
+    names = [f if style == "abs" else os.path.relpath(f, cwd) for f in files]
+    preset = rng.choice(["agent-v1", "agent-v1", "amp"])
+    conv = "MP%d" % rng.randrange(10**6)
+    if preset == "agent-v1":
+        pre = {"type": "human", "repo_working_dir": cwd, "will_edit_filepaths": names}
+        post = {"type": "ai_agent", "repo_working_dir": cwd, "edited_filepaths": names, "transcript": {"messages": [{"type": "user", "text": "x"}]},
+                "agent_name": "tool", "model": "m", "conversation_id": conv}
+    else:
+        names = files   # amp reports absolute paths
+        pre = {"hook_event_name": "PreToolUse", "thread_id": "T-" + conv, "cwd": cwd, "tool_input": {"paths": names}}
+        post = {"hook_event_name": "PostToolUse", "thread_id": "T-" + conv, "cwd": cwd, "edited_filepaths": names}
+    via_stdin = rng.random() < 0.3
+    def send(payload):
+        t = json.dumps(payload)
+        return run([BIN, "checkpoint", preset, "--hook-input", "stdin" if via_stdin else t], cwd, w.env(), input=t.encode() if via_stdin else None, timeout=60)
+    send(pre)
+    for f in files:
+        with open(f, "a") as fh:
+            fh.write("line written by the agent %d\n" % rng.randrange(10**6))
+    pr = send(post)
+    stats["multi_file_probes"] = stats.get("multi_file_probes", 0) + 1
+    what = dict(step="multi-file probe", preset=preset, classes=chosen, cwd=cwd.replace(w.root, "<ROOT>"), style=style, stdin=via_stdin, layout=layout)
+    if pr.rc != 0 or b"panicked at" in pr.err:
+        viol.append(dict(kind="C20/nonzero-exit" if pr.rc != 0 else "C20/panic", rc=pr.rc, stderr=pr.stderr[-300:], **what))
+        return
+    cwd_in_repo = any((cwd + "/").startswith(r + "/") for r in lay["repos"])
+    for c, f in zip(chosen, files):
+        owner = max((r for r in lay["repos"] if (f + "/").startswith(r + "/")), key=len, default=None)
+        if owner is None:
+            continue
+        if not cwd_in_repo and not (os.path.realpath(f) + "/").startswith(os.path.realpath(cwd) + "/"):
+            # workspace mode looks for repositories only below the workspace root (the directory the hook was started in): a file
+            # outside it is deliberately ignored; scan_logs still checks that it is not recorded in a wrong place
+            stats["multi_file_probe_outside_workspace"] = stats.get("multi_file_probe_outside_workspace", 0) + 1
+            continue
+        stats["multi_file_probe_files"] = stats.get("multi_file_probe_files", 0) + 1
+        if os.path.relpath(f, owner) not in recorded_files(w, owner):
+            viol.append(dict(kind="C20/edited-file-not-recorded-in-its-repository", path_class=c, file=f.replace(w.root, "<ROOT>"),
+                             owner=owner.replace(w.root, "<ROOT>"), stderr=pr.stderr[-300:], **what))
+
+
 def run_case(case):
     seed, index = case["seed"], case["index"]
     rng = random.Random("%s:C20:%s" % (seed, index))
@@ -256,6 +320,11 @@ def run_case(case):
             probs, n = scan_logs(w, lay)
             for pb in probs:
                 pb.update(dict(step="completeness probe", layout=layout)); viol.append(pb)
+        if layout in ("nested", "multi") and not viol and rng.random() < 0.6:
+            multi_file_probe(w, lay, layout, rng, viol, stats, flags=case.get("flags_off") or ())
+            probs, n = scan_logs(w, lay)
+            for pb in probs:
+                pb.update(dict(step="multi-file probe", layout=layout)); viol.append(pb)
         for k in range(rng.choice([2, 3, 4]) if not viol else 0):
             preset = rng.choice(PRESETS)
             fclass = rng.choice(sorted(lay["files"]))
